@@ -1,6 +1,18 @@
 //! C14 — relay keep-alive pings: only the latest ping counts.
 //!
-//! Drives the real `iroh_relay::PingTracker` under tokio's paused clock.
+//! Drives the real `iroh_relay::PingTracker` under tokio's paused clock, and (`A` cases) the
+//! tracker's user, the real `iroh` `ActiveRelayActor`, against a real relay server through a
+//! TCP forwarder that can withhold the server's answers, kill the connection and delay the
+//! re-dial (real time, about 1–3 s per case).
+//!
+//! payload `A <stall 0|1> <ping 0|1> <drop: - | k<ms> | i<ms>> <redial ms>`: connection 1 is set up and
+//! its first ping answered; then optionally the forwarder withholds everything the server sends
+//! (`stall`), optionally the actor is told to check the connection (`ping`: a ping on connection
+//! 1); then connection 1 is killed by the forwarder `k<ms>` later, or closed by the actor itself
+//! through `CheckConnection` without a valid local address `i<ms>` later, or left alone `-`
+//! (observed for 1300 ms); the re-dial is held back `redial` ms; connection 2 is healthy and is
+//! observed for 450 ms.  output: `c1 (alive1 | (dead1|lost1) c2 (alive2|dead2|lost2))` from the
+//! actor's own life-cycle events (`dead` = `RunError::PingTimeout`).
 //!
 //! payload: `<max_timeout_ms> <op>;<op>;…`   ops:
 //!   `p`          `new_ping()`                  `pt <ms>`  `new_ping_with_timeout(ms)`
@@ -341,6 +353,290 @@ fn gen_case(rng: &mut Rng, tier: Tier) -> String {
     format!("{max} {}", ops.join(";"))
 }
 
+// ---------------------------------------------------------------------------------------------
+// `A` cases: the real ActiveRelayActor behind a scripted forwarder.
+
+mod actor_case {
+    use std::net::{IpAddr, Ipv4Addr, SocketAddr};
+    use std::sync::{Arc, Mutex};
+    use std::time::{Duration, Instant};
+
+    use iroh::verif_hooks::transports::relay::active_relay::{self, ActiveRelay};
+    use iroh_relay::server::{RelayConfig, Server, ServerConfig};
+    use tokio::io::{AsyncReadExt, AsyncWriteExt};
+    use tokio::net::{TcpListener, TcpStream};
+    use tokio::sync::watch;
+    use tokio::sync::Notify;
+    use vcommon::Exec;
+
+    #[derive(Clone, Copy, Debug, PartialEq)]
+    pub enum Drop {
+        None,
+        Kill(u64),
+        InvalidIp(u64),
+    }
+
+    #[derive(Clone, Copy, Debug, PartialEq)]
+    enum ClosedBy {
+        Client,
+        Server,
+        Forwarder,
+    }
+
+    /// One forwarded TCP connection.
+    struct Fwd {
+        stall_tx: watch::Sender<bool>,
+        kill: Arc<Notify>,
+        closed: Arc<Mutex<Option<ClosedBy>>>,
+    }
+
+    /// The statement's lower clamp bound: no ping can be overdue earlier than this after it was sent.
+    const MIN_TIMEOUT_MS: u64 = 500;
+    /// Slack for measuring "when was the ping sent" from outside the actor.
+    const SLACK_MS: u64 = 60;
+    const BOUND: Duration = Duration::from_secs(10);
+
+    async fn pump(mut client: TcpStream, upstream: SocketAddr, delay: Duration, mut stall: watch::Receiver<bool>, kill: Arc<Notify>, closed: Arc<Mutex<Option<ClosedBy>>>) {
+        // (iii) delay the re-dial: the TCP connection is accepted, nothing is forwarded yet
+        tokio::select! {
+            _ = tokio::time::sleep(delay) => {}
+            _ = kill.notified() => { *closed.lock().unwrap() = Some(ClosedBy::Forwarder); return; }
+        }
+        let Ok(mut server) = TcpStream::connect(upstream).await else {
+            *closed.lock().unwrap() = Some(ClosedBy::Forwarder);
+            return;
+        };
+        let _ = client.set_nodelay(true);
+        let _ = server.set_nodelay(true);
+        let mut cb = vec![0u8; 16 * 1024];
+        let mut sb = vec![0u8; 16 * 1024];
+        let by = loop {
+            let stalled = *stall.borrow();
+            tokio::select! {
+                _ = kill.notified() => break ClosedBy::Forwarder,
+                _ = stall.changed() => {}
+                r = client.read(&mut cb) => match r {
+                    Ok(0) | Err(_) => break ClosedBy::Client,
+                    Ok(n) => { if server.write_all(&cb[..n]).await.is_err() { break ClosedBy::Server; } }
+                },
+                // (i) let pings go unanswered: while stalled the server's bytes stay in the socket
+                r = server.read(&mut sb), if !stalled => match r {
+                    Ok(0) | Err(_) => break ClosedBy::Server,
+                    Ok(n) => { if client.write_all(&sb[..n]).await.is_err() { break ClosedBy::Client; } }
+                },
+            }
+        };
+        *closed.lock().unwrap() = Some(by);
+    }
+
+    async fn wait_until(mut f: impl FnMut() -> bool, bound: Duration) -> bool {
+        let t0 = Instant::now();
+        while !f() {
+            if t0.elapsed() > bound {
+                return false;
+            }
+            tokio::time::sleep(Duration::from_millis(3)).await;
+        }
+        true
+    }
+
+    pub fn run(stall: bool, ping: bool, drop: Drop, redial: u64) -> Exec {
+        let rt = tokio::runtime::Builder::new_current_thread().enable_all().build().expect("runtime");
+        rt.block_on(async move {
+            let infra = |why: String| Exec { infra: Some(why), ..Default::default() };
+            let mut ex = Exec::default();
+            let _ = active_relay::take_events();
+            // the real relay server (plain http)
+            let mut config = ServerConfig::default();
+            config.relay = Some(RelayConfig::new((Ipv4Addr::LOCALHOST, 0)));
+            let server = match tokio::time::timeout(BOUND, Server::spawn(config)).await {
+                Ok(Ok(s)) => s,
+                Ok(Err(e)) => return infra(format!("spawn: {e}")),
+                Err(_) => return infra("spawn timed out".into()),
+            };
+            let Some(upstream) = server.http_addr() else { return infra("no http addr".into()) };
+            // the forwarder
+            let listener = match TcpListener::bind((Ipv4Addr::LOCALHOST, 0)).await {
+                Ok(l) => l,
+                Err(e) => return infra(format!("bind: {e}")),
+            };
+            let faddr = listener.local_addr().expect("addr");
+            let conns: Arc<Mutex<Vec<Fwd>>> = Arc::default();
+            let accept = tokio::spawn({
+                let conns = conns.clone();
+                async move {
+                    loop {
+                        let Ok((sock, _)) = listener.accept().await else { return };
+                        let (stall_tx, stall_rx) = watch::channel(false);
+                        let kill = Arc::new(Notify::new());
+                        let closed: Arc<Mutex<Option<ClosedBy>>> = Arc::default();
+                        let first = {
+                            let mut c = conns.lock().unwrap();
+                            c.push(Fwd { stall_tx, kill: kill.clone(), closed: closed.clone() });
+                            c.len() == 1
+                        };
+                        let delay = if first { Duration::ZERO } else { Duration::from_millis(redial) };
+                        tokio::spawn(pump(sock, upstream, delay, stall_rx, kill, closed));
+                    }
+                }
+            });
+            let url: iroh_base::RelayUrl = format!("http://{faddr}").parse().expect("url");
+            let key = iroh_base::SecretKey::from_bytes(&[0x41; 32]);
+            let actor = ActiveRelay::start(key, url, iroh_relay::tls::make_dangerous_client_config());
+            if !actor.set_home_relay(true).await {
+                return infra("actor inbox closed".into());
+            }
+            let metrics = server.metrics().server.clone();
+            let mut events: Vec<(u64, &'static str)> = Vec::new();
+            let pull = |events: &mut Vec<(u64, &'static str)>| events.extend(active_relay::take_events());
+            // connection 1 up and its first ping answered (so an RTT is measured)
+            if !wait_until(|| { pull(&mut events); events.iter().any(|e| e.1 == "connected") }, BOUND).await {
+                return infra("actor did not connect".into());
+            }
+            if !wait_until(|| metrics.sent_pong.get() >= 1, BOUND).await {
+                return infra("first ping not answered".into());
+            }
+            tokio::time::sleep(Duration::from_millis(40)).await;
+            pull(&mut events);
+            if events.iter().any(|e| e.1.starts_with("closed")) {
+                return infra(format!("connection 1 ended during set-up: {events:?}"));
+            }
+            // pings the harness knows of: (connection number, ms sent, could a pong get back?)
+            let mut pings: Vec<(usize, u64, bool)> = vec![(1, events[0].0, true)];
+            if stall {
+                let _ = conns.lock().unwrap()[0].stall_tx.send(true);
+            }
+            if ping {
+                let before = metrics.got_ping.get();
+                let t = active_relay::now_ms();
+                if !actor.check_connection(vec![IpAddr::V4(Ipv4Addr::LOCALHOST)]).await {
+                    return infra("actor inbox closed".into());
+                }
+                if !wait_until(|| metrics.got_ping.get() > before, Duration::from_secs(3)).await {
+                    return infra("CheckConnection ping did not reach the server".into());
+                }
+                pings.push((1, t, !stall));
+            }
+            let t_mark = Instant::now();
+            let conn1_closed = |events: &Vec<(u64, &'static str)>| events.iter().any(|e| e.1.starts_with("closed"));
+            match drop {
+                Drop::None => {
+                    tokio::time::sleep(Duration::from_millis(1300)).await;
+                }
+                Drop::Kill(ms) | Drop::InvalidIp(ms) => {
+                    tokio::time::sleep(Duration::from_millis(ms).saturating_sub(t_mark.elapsed())).await;
+                    pull(&mut events);
+                    if !conn1_closed(&events) {
+                        match drop {
+                            // (ii) drop the connection
+                            Drop::Kill(_) => conns.lock().unwrap()[0].kill.notify_one(),
+                            _ => {
+                                if !actor.check_connection(Vec::new()).await {
+                                    return infra("actor inbox closed".into());
+                                }
+                            }
+                        }
+                    }
+                }
+            }
+            pull(&mut events);
+            let expect_second = drop != Drop::None || conn1_closed(&events);
+            if expect_second {
+                // connection 1 ends, the re-dial is held back, connection 2 comes up
+                let two = |events: &Vec<(u64, &'static str)>| events.iter().filter(|e| e.1 == "connected").count() >= 2;
+                if !wait_until(|| { pull(&mut events); two(&events) }, BOUND + Duration::from_millis(redial)).await {
+                    return infra(format!("no second connection: {events:?}"));
+                }
+                let t2 = events.iter().filter(|e| e.1 == "connected").nth(1).expect("second").0;
+                pings.push((2, t2, true));
+                // observe the healthy connection 2
+                tokio::time::sleep(Duration::from_millis(450)).await;
+                pull(&mut events);
+            }
+            actor.stop();
+            accept.abort();
+            let closed_by: Vec<Option<ClosedBy>> = conns.lock().unwrap().iter().map(|c| *c.closed.lock().unwrap()).collect();
+            for c in conns.lock().unwrap().iter() {
+                c.kill.notify_one();
+            }
+            let _ = tokio::time::timeout(Duration::from_secs(3), server.shutdown()).await;
+
+            // canonical output + oracle, from the actor's own life-cycle events
+            let mut out: Vec<String> = Vec::new();
+            let mut n = 0usize;
+            let mut open = false;
+            for (t, what) in &events {
+                match *what {
+                    "connected" => {
+                        n += 1;
+                        open = true;
+                        if n <= 2 {
+                            out.push(format!("c{n}"));
+                        }
+                    }
+                    "closed:shutdown" => {}
+                    w if w.starts_with("closed:") => {
+                        let dead = w == "closed:ping-timeout";
+                        open = false;
+                        if n <= 2 {
+                            out.push(format!("{}{n}", if dead { "dead" } else { "lost" }));
+                        }
+                        if dead {
+                            // declared dead: some ping sent on THIS connection must have been
+                            // unanswerable for at least the minimum timeout
+                            let overdue = pings.iter().any(|(c, sent, answerable)| *c == n && !*answerable && t + SLACK_MS >= sent + MIN_TIMEOUT_MS);
+                            if !overdue {
+                                let mine: Vec<String> = pings.iter().filter(|p| p.0 == n).map(|p| format!("sent at {} ms, answer {}", p.1, if p.2 { "delivered" } else { "withheld" })).collect();
+                                ex.violation(
+                                    "dead-without-overdue-ping-on-this-connection",
+                                    format!("connection {n} declared dead (PingTimeout) at {t} ms; pings on it: [{}]; forwarder saw it closed by {:?}", mine.join("; "), closed_by.get(n - 1)),
+                                );
+                            }
+                        }
+                    }
+                    _ => {}
+                }
+            }
+            if n >= 1 && n <= 2 && open {
+                out.push(format!("alive{n}"));
+            }
+            if n > 2 {
+                out.push(format!("more:{n}"));
+            }
+            ex.out = out.join(" ");
+            ex.nontrivial = n >= 2;
+            ex.tags.push("A-actor".into());
+            if events.iter().any(|e| e.1 == "closed:ping-timeout") {
+                ex.tags.push("A-declared-dead".into());
+            }
+            if stall && ping && n >= 2 {
+                ex.tags.push("A-outstanding-ping-at-disconnect".into());
+            }
+            ex
+        })
+    }
+
+    pub fn parse(toks: &[&str]) -> Option<(bool, bool, Drop, u64)> {
+        let [st, pg, dr, rd] = toks else { return None };
+        let b = |s: &str| match s {
+            "0" => Some(false),
+            "1" => Some(true),
+            _ => None,
+        };
+        let ms = |s: &str| super::decimal(s).filter(|n| *n <= 5000);
+        let drop = if *dr == "-" {
+            Drop::None
+        } else if let Some(r) = dr.strip_prefix('k') {
+            Drop::Kill(ms(r)?)
+        } else if let Some(r) = dr.strip_prefix('i') {
+            Drop::InvalidIp(ms(r)?)
+        } else {
+            return None;
+        };
+        Some((b(st)?, b(pg)?, drop, ms(rd)?))
+    }
+}
+
 impl Prop for C14 {
     fn id(&self) -> &'static str {
         "C14"
@@ -366,6 +662,26 @@ impl Prop for C14 {
         for s in ["", "x p", "5000", "5000 q", "5000 p;;p", "5000 f 00", "5000 g -1", "5000 a 1_0", "5000 w 9999999999999999999"] {
             out.push(s.to_string());
         }
+        // the tracker's user: real-time scenarios against the real ActiveRelayActor
+        for s in ["A 1 1 k200 900", "A 1 1 - 0", "A 1 1 i150 1200", "A 0 1 k100 700", "A 1 0 k250 800", "A 0 0 - 0", "A 1 1", "A 2 1 - 0", "A 1 1 k5001 0"] {
+            out.push(s.to_string());
+        }
+        let n_actor = if tier == Tier::Thorough { 60 } else { 6 };
+        for _ in 0..n_actor {
+            let stall = rng.chance(3, 4);
+            let ping = rng.chance(3, 4);
+            // well away from the 500 ms minimum timeout, so that real-time jitter cannot flip the outcome
+            let early = rng.range(20, 250);
+            let late = rng.range(850, 1100);
+            let drop = match rng.below(8) {
+                0 => "-".to_string(),
+                1 => format!("k{late}"),
+                2 => format!("i{early}"),
+                _ => format!("k{early}"),
+            };
+            let redial = *rng.pick(&[0u64, 100, 700, 900, 1200]);
+            out.push(format!("A {} {} {drop} {redial}", stall as u8, ping as u8));
+        }
         while out.len() < n {
             let c = gen_case(rng, tier);
             out.push(c);
@@ -373,6 +689,13 @@ impl Prop for C14 {
     }
 
     fn execute(&mut self, payload: &str) -> Exec {
+        let toks: Vec<&str> = payload.split(' ').filter(|t| !t.is_empty()).collect();
+        if toks.first() == Some(&"A") {
+            return match actor_case::parse(&toks[1..]) {
+                Some((stall, ping, drop, redial)) => actor_case::run(stall, ping, drop, redial),
+                None => Exec::new("bad-input").tag("bad-input"),
+            };
+        }
         let Some((max, ops)) = parse(payload) else {
             return Exec::new("bad-input").tag("bad-input");
         };
